@@ -189,7 +189,7 @@ def run(ctx):
     return ctx.finish(
         checker_cmd="lake build Oas3Model.Props.C09 && #print axioms on every theorem" + ("" if ctx.quick else " && leanchecker Oas3Model.Props.C09"),
         trusted_base=vlib.TRUSTED_BASE + ["any_ascii (parameter tr of every theorem; real table shipped per case)", "inflections to_snake_case/to_constant_case modelled on ASCII", "Rust reference keyword list (hand-written spec table rustKeywords)"],
-        rule="bounded-exhaustive strings over the 15-symbol alphabet of the property's quantifier (len<=3 quick, <=5 thorough, plus r#-prefixed) through each of the 3 sanitisers + all keywords/reserved names + random word mixes + ensure_unique states; non-trivial = reaches a branch other than 'plain' (raw, neg, kw, unicode, empty, digit, probe); distinct by (op,input) hash",
+        rule="bounded-exhaustive strings over the 15-symbol alphabet of the property's quantifier (len<=3 quick, <=5 thorough, plus r#-prefixed) through each of the 3 sanitisers + all keywords/reserved names + random word mixes + ensure_unique states; E (naming.scopes): collision classes in struct fields / enum variants / union labels, and documents whose component keys (6 spellings) equal the names the generator derives itself (<Op>Request/Response/RequestParams/ResponseEnum/RequestQuery|Path|Header|Body, <Parent><Prop>, union variant structs), near-equal operation ids, webhooks next to paths - judged on module items, client methods and registry rows; non-trivial = reaches a branch other than 'plain' (raw, neg, kw, unicode, empty, digit, probe); distinct by (op,input) hash",
         assumptions=["any_ascii is a per-character map that is the identity on ASCII", "sanitised strings are ASCII, where inflections' Unicode case predicates coincide with the ASCII ones"])
 
 
